@@ -95,18 +95,39 @@ class Gen:
         return out
 
     def atom(self, chans, idxs):
+        """ConstantPT / TablePT / FunctionPT, or an AtomicMultiChannelPT of such atoms on disjoint channels"""
+        rng = self.rng
+        if rng.random() < 0.18:
+            total = rng.choice([2, 4])
+            chans = list(chans)
+            if len(chans) > 1 and rng.random() < 0.3:
+                groups = [chans]
+            else:
+                groups = [[c] for c in chans]
+            return {'k': 'amc', 'id': self.ident(), 'meas': self.meas(total),
+                    'subs': [self.simple_atom(g, idxs, total) for g in groups]}
+        return self.simple_atom(chans, idxs)
+
+    def simple_atom(self, chans, idxs, total=None):
         rng = self.rng
         idx = rng.choice(idxs) if idxs and rng.random() < 0.7 else None
+        if len(chans) == 1 and rng.random() < 0.22:
+            d = total or rng.randint(1, 4)
+            a = F(rng.choice([-2, -1, -1, 1, 1, 2, 0, F(1, 2)]))           # slope per tick (0: a ConstantWaveform)
+            b = self.val()
+            dv = F(rng.randint(-2, 2), 2) if idx else 0
+            return {'k': 'func', 'id': self.ident(), 'ch': chans[0], 'dur': self.tm(d), 'a': _fr(a / self.step),
+                    'b': [_fr(b), idx, _fr(dv)] if dv else _fr(b), 'meas': self.meas(d)}
         if rng.random() < 0.5:
-            d = rng.randint(1, 3)
-            dk = rng.choice([0, 0, 1]) if idx else 0
+            d = total or rng.randint(1, 3)
+            dk = rng.choice([0, 0, 1]) if idx and not total else 0
             vals = {}
             for c in chans:
                 v = self.val()
                 dv = F(rng.randint(-2, 2), 2)
                 vals[c] = [_fr(v), idx, _fr(dv)] if idx and dv and rng.random() < 0.7 else _fr(v)
             return {'k': 'const', 'id': self.ident(), 'dur': self.tmx(d, idx, dk), 'vals': vals, 'meas': self.meas(d)}
-        total = rng.choice([2, 4])
+        total = total or rng.choice([2, 4])
         comps = {2: [[2], [1, 1]], 4: [[4], [2, 2], [1, 1, 2], [2, 1, 1], [1, 2, 1], [1, 1, 1, 1]]}[total]
         entries = {}
         for c in chans:
@@ -159,7 +180,13 @@ class Gen:
                 chmap[ic] = c
             if rng.random() < 0.3:
                 chmap = {a: b for a, b in chmap.items() if a != b} or chmap      # partial mapping: identity implied
-            return {'k': 'map', 'id': self.ident(0.25), 'chmap': chmap, 'sub': self.tree(depth - 1, inner, idxs)}
+            sub = self.tree(depth - 1, inner, idxs)
+            node = {'k': 'map', 'id': self.ident(0.25), 'chmap': chmap, 'sub': sub}
+            names = sorted(meas_names(sub))
+            if names and rng.random() < 0.6:
+                node['mmap'] = {n: rng.choice(['m', 'n', 'k']) for n in names if rng.random() < 0.7} or \
+                               {names[0]: 'k'}
+            return node
         if k == 'par':
             chans = list(chans)
             ov = {}
@@ -218,7 +245,22 @@ def uses_idx(node, name):
         return num_uses(node['dur']) or any(num_uses(v) for v in node['vals'].values())
     if k == 'table':
         return any(num_uses(e[1]) for es in node['entries'].values() for e in es)
+    if k == 'func':
+        return num_uses(node['b'])
+    if k == 'amc':
+        return any(uses_idx(c, name) for c in node['subs'])
     return any(uses_idx(c, name) for c in I.children(node))
+
+
+def meas_names(node):
+    """measurement names a template defines (as seen from outside)"""
+    own = {m[0] for m in node.get('meas', [])}
+    if node['k'] == 'amc':
+        return own.union(*[meas_names(c) for c in node['subs']])
+    if node['k'] == 'map':
+        mm = node.get('mmap') or {}
+        return {mm.get(n, n) for n in meas_names(node['sub'])}
+    return own.union(*[meas_names(c) for c in I.children(node)])
 
 
 def force_idx(node, name, k):
@@ -237,6 +279,13 @@ def force_idx(node, name, k):
                     e[1] = [e[1], name, k]
                 return True
         return False
+    if node['k'] == 'func':
+        if not isinstance(node['b'], list):
+            node['b'] = [node['b'], name, k]
+            return True
+        return False
+    if node['k'] == 'amc':
+        return any(force_idx(ch, name, k) for ch in node['subs'])
     return any(force_idx(ch, name, k) for ch in I.children(node))
 
 
@@ -250,6 +299,10 @@ def out_channels(node):
         return sorted(node['vals'])
     if k == 'table':
         return sorted(node['entries'])
+    if k == 'func':
+        return [node['ch']]
+    if k == 'amc':
+        return sorted(c for s in node['subs'] for c in out_channels(s))
     if k == 'seq':
         return out_channels(node['subs'][0])
     if k in ('rep', 'for'):
@@ -289,6 +342,10 @@ def est_ticks(node, step, env=None):
         return max(F(0), I.num(node['dur'], env) / F(step))
     if k == 'table':
         return I.num(list(node['entries'].values())[0][-1][0], env) / F(step)
+    if k == 'func':
+        return max(F(0), I.num(node['dur'], env) / F(step))
+    if k == 'amc':
+        return est_ticks(node['subs'][0], step, env)
     if k == 'seq':
         return sum(est_ticks(s, step, env) for s in node['subs'])
     if k == 'rep':
@@ -362,11 +419,22 @@ def fixed_cases():
         'k': 'rep', 'id': None, 'meas': [['m', '0', '1']], 'n': 2,
         'body': {'k': 'seq', 'id': None, 'meas': [['n', '1', '1']], 'subs': [A('1', {'A': '1'}), tb]}}}]}
     out.append({'kind': 'opt', 'step': '1/2', 'tree': t, 'S': [{'by': 'name', 'name': 'top'}], 'G': None})
+    # FunctionPT / AtomicMultiChannelPT atoms and measurement renaming, collapsed + transformed
+    fn = {'k': 'func', 'id': None, 'ch': 'A', 'dur': '2', 'a': '1', 'b': '-1', 'meas': [['m', '0', '1']]}
+    amc = {'k': 'amc', 'id': 'M', 'meas': [['n', '1', '1']], 'subs': [fn, A('2', {'B': '3'}, meas=[['m', '1/2', '1/2']])]}
+    t = {'k': 'map', 'id': None, 'chmap': {'A': 'X'}, 'mmap': {'m': 'k'}, 'sub': {
+        'k': 'seq', 'id': 'Q', 'meas': [['m', '0', '2']], 'subs': [amc, {'k': 'rev', 'id': None, 'sub': amc}]}}
+    for S in ([], [{'by': 'name', 'name': 'Q'}], [{'by': 'name', 'name': 'M'}]):
+        out.append({'kind': 'opt', 'step': '1/2', 'tree': t, 'S': S, 'G': {'k': 'scale', 'm': {'X': '2'}}})
+    out.append({'kind': 'opt', 'step': '1/2', 'tree': t, 'S': [{'by': 'name', 'name': 'Q'}],
+                'G': {'k': 'linear', 'ins': ['X', 'B'], 'outs': ['Y', 'Z'], 'mat': [['1', '1'], ['1', '-1']]}})
+    out.append({'kind': 'ctor', 'step': '1/2', 'op': 'paratomic', 'args': [amc, A('2', {'C': '1'}, meas=[['k', '0', '1']])]})
+    out.append({'kind': 'ctor', 'step': '1/2', 'op': 'paratomic', 'args': [dict(amc, id=None), A('2', {'C': '1'})]})
     return out
 
 
 # ---- convenience constructors -----------------------------------------------------------------------------------------
-CTORS = ['matmul', 'concat', 'appended', 'rep', 'pow', 'map', 'par', 'rev2', 'iter', 'pad']
+CTORS = ['matmul', 'concat', 'appended', 'rep', 'pow', 'map', 'par', 'rev2', 'iter', 'pad', 'paratomic']
 
 
 def gen_ctor_cases(rng, n):
@@ -410,6 +478,8 @@ def gen_ctor_cases(rng, n):
             rng.shuffle(pool)
             c['args'] = [inner]
             c['chmap'] = {a: b for a, b in zip(oc, pool)}
+            names = sorted(meas_names(inner))
+            c['mmap'] = {n: rng.choice(['m', 'n', 'k']) for n in names if rng.random() < 0.6}
         elif op == 'par':
             inner = g.tree(rng.randint(0, 2), chans, kinds=['par', 'par', 'seq'])
             if inner['k'] == 'par' and rng.random() < 0.7:
@@ -432,6 +502,16 @@ def gen_ctor_cases(rng, n):
                 continue
             c['args'] = [body]
             c['range'] = rng.choice([[0, 2, 1], [0, 3, 1], [2, 0, -1], [0, 0, 1], [1, 5, 2]])
+        elif op == 'paratomic':
+            total = rng.choice([2, 4])
+            pool = ['A', 'B', 'C', 'X']
+            rng.shuffle(pool)
+            k = rng.randint(2, 3)
+            first = g.simple_atom([pool[0]], [], total)
+            if rng.random() < 0.6:      # the receiver already is an AtomicMultiChannelPT (merged when unnamed)
+                first = {'k': 'amc', 'id': g.ident(0.3), 'meas': g.meas(total),
+                         'subs': [first, g.simple_atom([pool[3]], [], total)]}
+            c['args'] = [first] + [g.simple_atom([pool[i]], [], total) for i in range(1, k)]
         elif op == 'pad':
             # constant atoms / sequences of constant atoms: final values are unambiguous
             def catom():
@@ -457,7 +537,9 @@ def ctor_explicit(c):
     if op in ('rep', 'pow'):
         return {'k': 'rep', 'id': None, 'meas': [], 'n': c['n'], 'body': a[0]}
     if op == 'map':
-        return {'k': 'map', 'id': None, 'chmap': dict(c['chmap']), 'sub': a[0]}
+        return {'k': 'map', 'id': None, 'chmap': dict(c['chmap']), 'mmap': dict(c.get('mmap') or {}), 'sub': a[0]}
+    if op == 'paratomic':
+        return {'k': 'amc', 'id': None, 'meas': [], 'subs': list(a)}
     if op == 'par':
         return {'k': 'par', 'id': None, 'ov': dict(c['ov']), 'sub': a[0]}
     if op == 'rev2':
@@ -490,7 +572,9 @@ def ctor_call(c):
     if op == 'pow':
         return a[0] ** c['n']
     if op == 'map':
-        return a[0].with_mapping(channel_mapping=dict(c['chmap']))
+        return a[0].with_mapping(channel_mapping=dict(c['chmap']), measurement_mapping=dict(c.get('mmap') or {}))
+    if op == 'paratomic':
+        return a[0].with_parallel_atomic(*a[1:])
     if op == 'par':
         return a[0].with_parallel_channels({k: I._py(v) for k, v in c['ov'].items()})
     if op == 'rev2':
@@ -508,7 +592,7 @@ def describe(pt):
     """JSON tree of a real template object (structure read back from the object's public attributes)"""
     import sympy
     from qupulse.pulses import (ConstantPT, TablePT, SequencePT, RepetitionPT, ForLoopPT, MappingPT, TimeReversalPT,
-                                ParallelChannelPT, ArithmeticPT)
+                                ParallelChannelPT, ArithmeticPT, FunctionPT, AtomicMultiChannelPT)
     from qupulse.expressions import ExpressionScalar
 
     def numj(x):
@@ -537,6 +621,16 @@ def describe(pt):
         return {'k': 'table', 'id': ident,
                 'entries': {c: [[numj(e.t), numj(e.v), str(e.interp)] for e in es] for c, es in pt.entries.items()},
                 'meas': meas(pt)}
+    if isinstance(pt, FunctionPT):
+        e = sympy.expand(pt.expression.sympified_expression)
+        t = sympy.Symbol('t')
+        a = e.coeff(t, 1)
+        assert a.is_number and sympy.simplify(e - a * t - e.coeff(t, 0)) == 0, e
+        (ch,) = pt.defined_channels
+        return {'k': 'func', 'id': ident, 'ch': ch, 'dur': numj(pt.duration), 'a': numj(a), 'b': numj(e.coeff(t, 0)),
+                'meas': meas(pt)}
+    if isinstance(pt, AtomicMultiChannelPT):
+        return {'k': 'amc', 'id': ident, 'meas': meas(pt), 'subs': [describe(s) for s in pt.subtemplates]}
     if isinstance(pt, SequencePT):
         return {'k': 'seq', 'id': ident, 'meas': meas(pt), 'subs': [describe(s) for s in pt.subtemplates]}
     if isinstance(pt, RepetitionPT):
@@ -549,7 +643,8 @@ def describe(pt):
                 'body': describe(pt.body)}
     if isinstance(pt, MappingPT):
         assert all(str(v) == k for k, v in pt.parameter_mapping.items()), pt.parameter_mapping
-        return {'k': 'map', 'id': ident, 'chmap': dict(pt.channel_mapping), 'sub': describe(pt.template)}
+        return {'k': 'map', 'id': ident, 'chmap': dict(pt.channel_mapping),
+                'mmap': {a: b for a, b in pt.measurement_mapping.items() if a != b}, 'sub': describe(pt.template)}
     if isinstance(pt, ParallelChannelPT):
         return {'k': 'par', 'id': ident, 'ov': {c: numj(v) for c, v in pt.overwritten_channels.items()},
                 'sub': describe(pt.template)}
@@ -640,25 +735,60 @@ class Printer:
         return glist(lambda m: '(%s, %s, %s)' % (gN(MN[m[0]]), gZ(self.ticks(m[1], env)), gZ(self.ticks(m[2], env))),
                      node.get('meas', []))
 
-    def pt(self, node, env):
+    def win_terms(self, node, env):
+        return ['(%s, %s, %s)' % (gN(MN[m[0]]), gZ(self.ticks(m[1], env)), gZ(self.ticks(m[2], env)))
+                for m in node.get('meas', [])]
+
+    def atom_parts(self, node, env):
+        """(window terms, duration in ticks or None when the atom builds no waveform, [(channel, chdef term)]) of an
+        atomic template; an AtomicMultiChannelPT is the union of its sub-atoms (MultiChannelWaveform.from_parallel
+        flattens, get_measurement_windows collects)"""
         k = node['k']
-        i = gN(self.cls(node))
         if k == 'const':
-            chs = glist(lambda cv: '(%s, CConst (Some %s))' % (gN(CH[cv[0]]), gQ(I.num(cv[1], env))),
-                        sorted(node['vals'].items()))
-            return '(PAtom %s %s %s %s)' % (i, self.wins(node, env), gZ(self.ticks(node['dur'], env)), chs)
+            return (self.win_terms(node, env), self.ticks(node['dur'], env),
+                    [(c, 'CConst (Some %s)' % gQ(I.num(v, env))) for c, v in sorted(node['vals'].items())])
         if k == 'table':
             ip = {'hold': 'IHold', 'linear': 'ILinear', 'jump': 'IJump'}
 
             def chdef(es):
                 vals = [I.num(e[1], env) for e in es]
-                if all(v == vals[0] for v in vals):
-                    return 'CConst (Some %s)' % gQ(vals[0])         # TableWaveform.from_table -> ConstantWaveform
+                # TableWaveform.from_table -> ConstantWaveform when every segment is constant (hold: start value,
+                # jump: end value, linear: equal ends) with one common value
+                seg = [{'hold': v1, 'jump': v2, 'linear': v1 if v1 == v2 else None}[e[2]]
+                       for v1, v2, e in zip(vals, vals[1:], es[1:])]
+                if all(v is not None and v == seg[0] for v in seg):
+                    return 'CConst (Some %s)' % gQ(seg[0])
                 return 'CTable %s' % glist(lambda e: '(%s, %s, %s)' % (gZ(self.ticks(e[0], env)), gQ(I.num(e[1], env)),
                                                                        ip[e[2]]), es)
-            chs = glist(lambda ce: '(%s, %s)' % (gN(CH[ce[0]]), chdef(ce[1])), sorted(node['entries'].items()))
-            d = self.ticks(list(node['entries'].values())[0][-1][0], env)
-            return '(PAtom %s %s %s %s)' % (i, self.wins(node, env), gZ(d), chs)
+            return (self.win_terms(node, env), self.ticks(list(node['entries'].values())[0][-1][0], env),
+                    [(c, chdef(es)) for c, es in sorted(node['entries'].items())])
+        if k == 'func':
+            a = I.num(node['a'], env) * self.step                   # slope per tick
+            b = I.num(node['b'], env)
+            d = 'CFun %s %s' % (gQ(a), gQ(b)) if a != 0 else 'CConst (Some %s)' % gQ(b)   # from_expression
+            return self.win_terms(node, env), self.ticks(node['dur'], env), [(node['ch'], d)]
+        if k == 'amc':
+            wins = self.win_terms(node, env)
+            chs = []
+            dur = None
+            for s in node['subs']:
+                w, d, c = self.atom_parts(s, env)
+                wins += w
+                if d is None or d <= 0:
+                    continue                                        # that subtemplate builds no waveform
+                dur = d if dur is None else dur
+                assert d == dur, 'AtomicMultiChannelPT over different durations'
+                chs += c
+            return wins, dur, chs
+        raise ValueError(k)
+
+    def pt(self, node, env):
+        k = node['k']
+        i = gN(self.cls(node))
+        if k in ('const', 'table', 'func', 'amc'):
+            wins, d, chs = self.atom_parts(node, env)
+            return '(PAtom %s %s %s %s)' % (i, glist(lambda x: x, wins), gZ(0 if d is None else d),
+                                            glist(lambda cd: '(%s, %s)' % (gN(CH[cd[0]]), cd[1]), sorted(chs)))
         if k == 'seq':
             return '(PSeq %s %s %s)' % (i, self.wins(node, env), glist(lambda s: self.pt(s, env), node['subs']))
         if k == 'rep':
@@ -668,7 +798,8 @@ class Printer:
                 lambda v: self.pt(node['body'], dict(env, **{node['idx']: v})), list(range(*node['range']))))
         if k == 'map':
             ren = glist(lambda ab: '(%s, %s)' % (gN(CH[ab[0]]), gN(CH[ab[1]])), sorted(node['chmap'].items()))
-            return '(PMap %s %s %s)' % (i, ren, self.pt(node['sub'], env))
+            mren = glist(lambda ab: '(%s, %s)' % (gN(MN[ab[0]]), gN(MN[ab[1]])), sorted((node.get('mmap') or {}).items()))
+            return '(PMap %s %s %s %s)' % (i, ren, mren, self.pt(node['sub'], env))
         if k == 'par':
             ov = glist(lambda cv: '(%s, %s)' % (gN(CH[cv[0]]), gQ(I.num(cv[1], env))), sorted(node['ov'].items()))
             return '(PPar %s %s %s)' % (i, ov, self.pt(node['sub'], env))
@@ -801,14 +932,19 @@ def par_gets_transformation(tree, G):
 
 
 def linear_after_parallel(G):
-    """chain in which a LinearTransformation consumes a channel that an earlier ParallelChannelTransformation sets"""
+    """chain in which a LinearTransformation with several inputs consumes a channel that an earlier element creates
+    (ParallelChannelTransformation value or output of another LinearTransformation): sampling one output channel asks
+    the chain for the inputs of that channel only, the earlier element re-creates its channel, and the linear step
+    then sees some but not all of its inputs"""
     ts = G['ts'] if G and G['k'] == 'chain' else []
     seen = set()
     for t in ts:
-        if t['k'] == 'parallel':
-            seen |= set(t['m'])
         if t['k'] == 'linear' and seen & set(t['ins']) and len(t['ins']) > 1:
             return True
+        if t['k'] == 'parallel':
+            seen |= set(t['m'])
+        if t['k'] == 'linear':
+            seen |= set(t['outs'])
     return False
 
 
